@@ -1,7 +1,7 @@
 (* REFERENCE COPY ("the documented rule set") of the tables Gen/NameRefRules.v is regenerated from:
      api/internal/konfig/builtinpluginconsts/namereference.go, kyaml/resid/gvk.go (orderFirst / orderLast),
      api/internal/builtins/{Prefix,Suffix}Transformer.go (skip lists)
-   as they are at the pinned commit of /repo.  Committed, never regenerated: the obligation
+   as they are at the pinned commit of /repo (incl. fix 9f584a1: IngressClass group networking.k8s.io).  Committed, never regenerated: the obligation
    Gen_nameref_rules_eq_ref (Props/C03.v) compares the regenerated tables with this copy, so ANY edit of
    a row (kind, group, version, path, create flag, order) is noticed.  To accept an intended change of the
    rule set, replace this file by the new Gen/NameRefRules.v (renaming gen_ to ref_) and
@@ -203,7 +203,7 @@ Definition ref_nameref_raw : list nbr := [
     mkFs "" "" "Job" "spec/template/spec/priorityClassName" false;
     mkFs "" "" "DaemonSet" "spec/template/spec/priorityClassName" false
   ];
-  mkNbr "networking.k8s.io/v1" "v1" "IngressClass" [
+  mkNbr "networking.k8s.io" "v1" "IngressClass" [
     mkFs "" "" "Ingress" "spec/ingressClassName" false
   ];
   mkNbr "admissionregistration.k8s.io" "" "ValidatingAdmissionPolicy" [
